@@ -396,7 +396,14 @@ func splitValues(value string) []string {
 	values := strings.Split(value, ",")
 	newValues := []string{}
 	for _, strippedValue := range values {
-		newValues = append(newValues, strings.ToLower(strings.TrimSpace(strippedValue)))
+		// (ASCII letters only: CSS keywords are ASCII case-insensitive,
+		// strings.ToLower also turns the Kelvin sign into k)
+		newValues = append(newValues, strings.Map(func(r rune) rune {
+			if 'A' <= r && r <= 'Z' {
+				return r + ('a' - 'A')
+			}
+			return r
+		}, strings.TrimSpace(strippedValue)))
 	}
 	return newValues
 }
